@@ -133,6 +133,13 @@ var c02VarCases = []c02VarCase{
 	{`query($fl: Float, $id: ID) { me { calc(fl: $fl, id: $id) } }`, map[string]any{"fl": json.Number("2.5"), "id": json.Number("12")}, "f=nil xs=nil e=RED o=nil id=12 fl=2.5 n=7 ys=nil"},
 	{`query($fl: Float, $id: ID) { me { calc(fl: $fl, id: $id) } }`, map[string]any{"fl": int64(3), "id": "abc"}, "f=nil xs=nil e=RED o=nil id=abc fl=3 n=7 ys=nil"},
 	{`query($p: Patch = {note: "d"}) { me { patch(p: $p) } }`, nil, "p={note:d count:5 tags:unset sub:unset} b=nil"},
+	// an enum whose Go type is generated (modelgen): exact names only, although gqlparser compares variable values case-insensitively
+	{`query($s: Shade, $ss: [Shade!]) { me { tint(s: $s, ss: $ss) } }`, map[string]any{"s": "DARK", "ss": []any{"LIGHT", "DARK"}}, "s=DARK ss=[LIGHT,DARK]"},
+	{`query($s: Shade, $ss: [Shade!]) { me { tint(s: $s, ss: $ss) } }`, map[string]any{"s": "LIGHT", "ss": "DARK"}, "s=LIGHT ss=[DARK]"},
+	{`query($s: Shade) { me { tint(s: $s) } }`, map[string]any{"s": "dark"}, ""},
+	{`query($ss: [Shade!]) { me { tint(ss: $ss) } }`, map[string]any{"ss": []any{"LIGHT", "Dark"}}, ""},
+	{`query($s: Shade) { me { tint(s: $s) } }`, map[string]any{"s": "MEDIUM"}, ""},
+	{`query($c: Color) { me { calc(e: $c) } }`, map[string]any{"c": "green"}, ""},
 }
 
 var c02VarDocsOK bool
